@@ -1,12 +1,16 @@
 """C16 -- sparse kernels equal their dense definitions.
 
 proof:  coq/Properties_C16.v (zero pivot of a Gram matrix => exactly zero row/column; ordering is a similarity; transpose
-        keeps entries) and coq/Properties_C16_graph.v (the column graph model is symmetric without loops)
+        keeps entries), coq/Properties_C16_graph.v (the column graph model is symmetric without loops) and
+        coq/Properties_C16_crs.v (SparseMatrix::transpose modelled on the compressed rows themselves -- CrsModel.v -- keeps
+        every stored entry, for every storage incl. repeated / unsorted indices and empty rows; shape; double transpose)
 K:      harness/sparse.cpp (ASan+UBSan): SparseMatrix build / transpose / replicate, column graph, connectivity, reverse
         Cuthill-McKee permutation and its inverse, Envelope set / cholDec (zero pivots, defect) / solve / inverse on the
         profile, BlockDiagonal::cholDec; every output judged inside coqc against dense exact definitions (coq/SparseRun.v):
         all 0/1 sparsity patterns up to 3x3 exhaustively + random patterns up to 12x7 (empty rows, single column, dense,
         banded, disconnected graphs, duplicated / combined columns)
+K:      the same harness, command U: raw storages (unsorted and repeated column indices, empty rows) -> the raw storage of
+        transpose() and of the double transpose compared exactly, order included, with CrsModel.transpose inside coqc
 E:      <connected-network/> flag of gama-local on generated connected / disconnected networks (via C02/C20 runs)
 """
 import itertools
@@ -73,7 +77,7 @@ def gen_patterns(ctx):
 
 
 def run(ctx):
-    ctx.check_proofs(extra_files=["Properties_C16_graph", "SparseRun"])
+    ctx.check_proofs(extra_files=["Properties_C16_graph", "Properties_C16_crs", "SparseRun"])
     exe = vlib.compile_harness("harness/sparse.cpp", sanitize=True)
     rng = ctx.rng
     pats = gen_patterns(ctx)
@@ -158,6 +162,103 @@ def run(ctx):
         # the reference here is the dense definition itself (exact): a disagreement is a failing input
         ctx.violation({"kind": "K:sparse", "matrix": A, "rhs": rhs, "disagreement": [CODES.get(c, c) for c in codes], "implementation_output": blocks[i][:1500]},
                       "sparse kernel differs from its dense definition (%s) on a %dx%d pattern" % (", ".join(CODES.get(c, str(c)) for c in codes), len(A), len(A[0])))
+    # K on the storage itself: raw compressed rows in (any order of indices, repeated indices, empty rows), the raw storage of
+    # transpose() and of the double transpose out; compared exactly with CrsModel.transpose (theorems: Properties_C16_crs.v)
+    ucmds, umeta = [], []
+    vals_ = [-3, -2, -1, 1, 2, 5, 0.5, -0.25, 7]
+
+    def ustore(m, n, fill):
+        rows = []
+        for i in range(m):
+            kind = rng.random()
+            if kind < 0.2:
+                row = []
+            elif kind < 0.35:
+                c = rng.choice([1, n])
+                row = [(c, rng.choice(vals_)) for _ in range(rng.randint(1, 3))]          # one index repeated
+            else:
+                row = [(rng.randint(1, n), rng.choice(vals_)) for _ in range(rng.randint(1, fill))]
+                if rng.random() < 0.3:
+                    row.sort()
+                elif rng.random() < 0.3:
+                    row.sort(reverse=True)
+            rows.append(row)
+        return rows
+    for m in range(1, 4):                    # small shapes systematically, then random ones
+        for n in range(1, 4):
+            for _ in range(3 if ctx.quick else 30):
+                umeta.append((n, ustore(m, n, 3)))
+    for _ in range(60 if ctx.quick else 1500):
+        m, n = rng.randint(1, 9), rng.randint(1, 8)
+        umeta.append((n, ustore(m, n, rng.choice([2, 4, 9]))))
+    for n, rows in umeta:
+        ucmds.append("U %d %d %s" % (len(rows), n, " ".join("%d %s" % (len(r), " ".join("%d %s" % (c, hx(v)) for c, v in r)) for r in rows).strip()))
+        ctx.count(("crs", str((n, rows))), nontrivial=any(len(r) > 1 for r in rows))
+        ctx.hist("crs rows x cols", "%dx%d" % (len(rows), n))
+    rc, out, err = vlib.sh([exe], inp="\n".join(ucmds) + "\n", timeout=600)
+    ubl = out.split("END\n")
+    if rc != 0 or len(ubl) < len(ucmds) + 1:
+        k = max(0, min(len(ubl) - 1, len(ucmds) - 1))
+        ctx.violation({"kind": "K:crs-transpose", "command": ucmds[k], "stderr": err[-1500:], "rc": rc}, "sparse harness died (sanitizer report / crash) in transpose at: %s" % ucmds[k][:150])
+    else:
+        def rawparse(tok):
+            nr = int(tok[0]); p = 1; rows = []
+            for _ in range(nr):
+                k = int(tok[p]); p += 1
+                rows.append([(int(tok[p + 2 * j]), float.fromhex(tok[p + 2 * j + 1])) for j in range(k)]); p += 2 * k
+            return rows
+        crsl = lambda rows: "[%s]" % "; ".join("[%s]" % "; ".join("(%d%%nat, %s)" % (c, solver.qlit(v)) for c, v in r) for r in rows)
+        uterms, uparsed = [], []
+        for (n, rows), blk in zip(umeta, ubl):
+            d = {l.split()[0]: l.split()[1:] for l in blk.strip().split("\n") if l.split()}
+            if "RT" not in d or "RTT" not in d:
+                ctx.violation({"kind": "K:crs-transpose", "columns": n, "storage": rows, "output": blk[:400]}, "transpose raised an exception on a valid storage")
+                uparsed.append(None); uterms.append("(%d%%nat, %s, [], [])" % (n, crsl(rows)))
+                continue
+            T, TT = rawparse(d["RT"]), rawparse(d["RTT"])
+            uparsed.append((T, TT))
+            uterms.append("(%d%%nat, %s, %s, %s)" % (n, crsl(rows), crsl(T), crsl(TT)))
+        v = "From Coq Require Import List QArith ZArith.\nFrom Gama Require Import CrsModel.\nImport ListNotations.\nClose Scope Q_scope.\n" \
+            "Definition cases : list (nat * crs * crs * crs) := [\n%s\n].\n" % ";\n".join(uterms) + \
+            'Goal True. idtac "@@CR". Abort.\nEval vm_compute in judge_all_crs 0 cases.\n'
+        rc, cout = vlib.coq_run(v, ctx.scratch, name="cases_c16_crs", timeout=900)
+        lst = vlib.parse_coq_list(cout, "@@CR")
+        ctx.checker_cmds.append("coqc -Q coq Gama cases_c16_crs.v")
+        ctx.obligation(rc == 0 and lst == [], "K:crs-transpose (storage order, %d storages)" % len(uterms))
+        if rc != 0 or lst is None:
+            ctx.log(cout[-800:])
+            ctx.violation({"kind": "K:crs-transpose", "broken": "cases file did not evaluate", "tail": cout[-400:]}, "crs cases file failed", no_input=True)
+        else:
+            from fractions import Fraction as Fr
+
+            def dense_(rows, nc):
+                D = [[Fr(0)] * nc for _ in rows]
+                for i, r in enumerate(rows):
+                    for c, v in r:
+                        if 1 <= c <= nc:
+                            D[i][c - 1] += Fr(v)
+                return D
+            found = 0
+            for el in lst:
+                mm_ = re.match(r"\(\s*(\d+),\s*\[(.*)\]\s*\)", el.replace("%nat", ""))
+                i = int(mm_.group(1)); codes = [int(x) for x in re.findall(r"\d+", mm_.group(2))]
+                n, rows = umeta[i]
+                if uparsed[i] is None:
+                    continue
+                T, TT = uparsed[i]
+                A_ = dense_(rows, n)
+                okT = len(T) == n and dense_(T, len(rows)) == [[A_[r][c] for r in range(len(rows))] for c in range(n)] and all(1 <= c <= len(rows) for r in T for c, _ in r)
+                okTT = len(TT) == len(rows) and dense_(TT, n) == A_ and all(1 <= c <= n for r in TT for c, _ in r)
+                if not (okT and okTT) and found < 3:
+                    found += 1
+                    ctx.violation({"kind": "K:crs-transpose", "columns": n, "storage": rows, "transpose": T, "double_transpose": TT, "codes": codes},
+                                  "SparseMatrix::transpose loses or moves an entry on a %dx%d storage with %d elements" % (len(rows), n, sum(len(r) for r in rows)))
+            if lst and not found:
+                i = int(re.match(r"\(\s*(\d+)", lst[0]).group(1))
+                ctx.violation({"kind": "K:crs-transpose", "broken": "correspondence K:crs-transpose: the storage order of transpose() differs from CrsModel.transpose "
+                               "(theorems Properties_C16_crs.* no longer speak about this code); every entry is still preserved on all %d storages" % len(uterms),
+                               "first_differing_storage": {"columns": umeta[i][0], "storage": umeta[i][1], "implementation": uparsed[i]}},
+                              "storage order of transpose() differs from the model", no_input=True)
     # block diagonal Cholesky
     bcmds, bmeta = [], []
     for _ in range(40 if ctx.quick else 400):
